@@ -65,7 +65,7 @@ structure FileOK (m : Model) (e : Enc) (ln : Kind → Vals → Bytes) (f : File 
   ctlType : (f.control.s "recordType").isEmpty = false
   cashLetters : ∀ cl ∈ f.cashLetters, CashLetterOK m e ln cl
 
-theorem minLen_of_kind (m : Model) (e : Enc) (l : Bytes) (k : Kind) (h : kindOfLine l = some k) (hk : k ≠ .cdAddB ∧ k ≠ .rdAddC) : minLen m e l = 80 := by
+theorem minLen_of_kind (m : Model) (e : Enc) (l : Bytes) (k : Kind) (h : kindOfLine l = some k) (hk : k ≠ .cdAddB ∧ k ≠ .rdAddC ∧ k ≠ .ivData) : minLen m e l = 80 := by
   unfold minLen
   rw [h]
   cases k <;> simp_all
